@@ -64,7 +64,7 @@ Names == <<
   "C07_UsedWithinCap", "C07_ProviderEscrowClosed", "C07_PledgeBackToPledger", "C07_CollateralLedger",
   "C08_MintedEqualsCounter", "C08_ClaimsWithinMinted", "C08_ShareBaseIsPledgedCapacity", "C08_MintOnlyInBlocks", "C08_MintBound", "C08_ClaimExact",
   "C09_ModelChangeAuthorised", "C09_PermissionApplied",
-  "C10_CompleteByAssignee", "C10_NodeSelfOnly", "C10_CancelByCreator", "C10_PayerConsent",
+  "C10_CompleteByAssignee", "C10_NodeSelfOnly", "C10_CancelByCreator", "C10_PayerConsent", "C10_RenewPayerIsSigner",
   "C11_KeptWhilePaid", "C11_ReleasedAtEnd", "C11_ModelOutlivesShards", "C11_NothingOverdue",
   "C12_Rescheduled", "C12_StoredOrderUntouched", "C12_ResolvedByBound", "C12_ReplicasAccounted", "C12_MigrationUntouched",
   "C13_OrderShardsExist", "C13_ShardListedByItsOrder", "C13_CompletedShardScheduled", "C13_AliasBijection",
@@ -111,6 +111,7 @@ Verdict(name, x, g) ==
     [] name = "C10_NodeSelfOnly"         -> V(C10_NodeSelfOnly_app(x), C10_NodeSelfOnly(x))
     [] name = "C10_CancelByCreator"      -> V(C05_app(x), C10_CancelByCreator(x))
     [] name = "C10_PayerConsent"         -> V(C04_ChargeExact_app(x), C10_PayerConsent(x))
+    [] name = "C10_RenewPayerIsSigner"   -> V(C10_RenewPayerIsSigner_app(x), C10_RenewPayerIsSigner(x))
     [] name = "C11_KeptWhilePaid"        -> V(TRUE, C11_KeptWhilePaid(x))
     [] name = "C11_ReleasedAtEnd"        -> V(C11_ReleasedAtEnd_app(x), C11_ReleasedAtEnd(x))
     [] name = "C11_ModelOutlivesShards"  -> V(TRUE, C11_ModelOutlivesShards(s))
